@@ -442,7 +442,12 @@ func (loc *Location) WorkWalk(ctx *Context, w *FindRules, steps int) *Condition 
 				for _, era := range erc.Children {
 					go func(era *ExecRuleAction) {
 						if era.Disposition != Complete || c.step() {
-							era.Do(ctx, loc)
+							// With a context of its own: an
+							// action points its context at
+							// locations (its own, and the
+							// ancestors' during an
+							// inherited search).
+							era.Do(ctx.SubContext(), loc)
 							if era.Disposition == Complete {
 								vm.Lock()
 								w.Values = append(w.Values, era.Value)
